@@ -68,7 +68,7 @@ class Env:
     def build(self, n, root_exiting=False):
         k = n["k"]
         if k == "plain":
-            o = APM(n["id"], suspend_in_exit=root_exiting) if n["async"] else PM(n["id"])
+            o = APM(n["id"], suspend_in_exit=root_exiting or n.get("suspend", False)) if n["async"] else PM(n["id"])
         elif k == "gcm":
             o = self.build_gcm(n, root_exiting)
         else:
@@ -271,7 +271,7 @@ def run_case(case):
                 if st.error is not None:
                     bad.append("after op %d: error %r" % (k, st.error))
         else:
-            mgr = env.build(root, root_exiting=exiting)
+            mgr = env.build(root, root_exiting=exiting and root["k"] != "stack")
             co = carrier(env, mgr, root["async"])
             co.send(None)
             if exiting:
